@@ -61,6 +61,10 @@ func (inst *InstAlloca) Type() types.Type {
 	if inst.Typ == nil {
 		inst.Typ = types.NewPointer(inst.ElemType)
 		inst.Typ.AddrSpace = inst.AddrSpace
+	} else if inst.Typ.AddrSpace != inst.AddrSpace {
+		// The address space may be set after the type has been cached (the
+		// constructor and the parser both cache the type first).
+		inst.Typ.AddrSpace = inst.AddrSpace
 	}
 	return inst.Typ
 }
